@@ -38,8 +38,9 @@ def parseEOpts (s : String) : Option (List EOpt) :=
         pure ⟨c, d⟩
     | _ => none
 
-def stepEcs (toks : List String) : Option String :=
+partial def stepEcs (toks : List String) : Option String :=
   match toks with
+  | ["post53", h] => stepEcs ["post", h]   -- the plain-DNS path sends the same payload
   | ["post", h] =>
     match ofHex h with
     | none => some "bad-op"
